@@ -40,10 +40,11 @@ void scales(const TasmanianSparseGrid &g, const std::vector<double> &x, std::vec
     int d = g.getNumDimensions(), outs = g.getNumOutputs(), n = g.getNumLoaded();
     std::vector<double> dw = g.getDifferentiationWeights(x), iw; g.getInterpolationWeights(x, iw);
     const double *v = g.getLoadedValues();
-    D.assign((size_t)outs * (size_t)d, 0.0); S.assign((size_t)outs, 0.0);
+    D.assign((size_t)outs * (size_t)d, 0.0); S.assign((size_t)outs, 0.0); std::vector<double> vmax((size_t)outs, 0.0);
     for (int i = 0; i < n; i++) for (int k = 0; k < outs; k++) { double av = std::fabs(v[(size_t)i * (size_t)outs + (size_t)k]);
-        S[(size_t)k] += std::fabs(iw[(size_t)i]) * av;
+        S[(size_t)k] += std::fabs(iw[(size_t)i]) * av; vmax[(size_t)k] = std::max(vmax[(size_t)k], av);
         for (int j = 0; j < d; j++) D[(size_t)k * (size_t)d + (size_t)j] += std::fabs(dw[(size_t)i * (size_t)d + (size_t)j]) * av; }
+    for (int k = 0; k < outs; k++) S[(size_t)k] = std::max(S[(size_t)k], vmax[(size_t)k]);   // floor: the magnitude of the data (on a coordinate plane of zeros of the weights both sums are rounding noise)
 }
 
 } // namespace
@@ -51,18 +52,24 @@ void scales(const TasmanianSparseGrid &g, const std::vector<double> &x, std::vec
 void check_C05(Src &s, Ctx &ctx) {
     SpecOpts so; so.max_dims = 3; so.min_outs = 1; so.max_outs = 3; so.conformal = false; so.cap = cfg().tier ? 600 : 300;
     // family first, biased so that every local polynomial order and both wavelet orders get a fair share
-    static const int fam_of[] = {F_LOCALP, F_GLOBAL, F_WAVE, F_FOURIER, F_SEQ};
-    so.fam_mask = 1u << fam_of[s.weighted({5, 3, 3, 3, 2})];
+    // (rapidcheck draws small byte values far more often than large ones: choices that must be balanced go through a multiplicative scramble;
+    //  an exhausted input still yields index 0)
+    auto mix = [&](int k) { return (int)((s.byte() * 37u) % (unsigned)k); };
+    static const int fam_of[16] = {F_LOCALP, F_GLOBAL, F_WAVE, F_FOURIER, F_LOCALP, F_SEQ, F_GLOBAL, F_LOCALP, F_WAVE, F_FOURIER, F_LOCALP, F_GLOBAL, F_SEQ, F_LOCALP, F_WAVE, F_FOURIER};
+    so.fam_mask = 1u << fam_of[mix(16)];
+    const int order_sel = mix(14), nx = 3 + mix(4); const unsigned node_mask = s.byte() * 37u;   // early bytes: these choices should not starve when the input is short
+    so.min_depth = mix(8) == 7 ? 0 : 1;
     GridState st; st.cap = so.cap; st.ctx = &ctx;
     st.spec = decode_spec(s, so); st.vm.decode(s);
+    if (st.spec.family == F_LOCALP) { static const int orders[7] = {1, 2, 3, 0, -1, 4, 5}; st.spec.order = orders[order_sel % 7]; }
+    if (st.spec.family == F_WAVE) st.spec.order = (order_sel % 2) ? 3 : 1;
     make_grid(st.g, st.spec, so.cap);
     ctx.log(st.spec.text()); ctx.log(st.vm.text());
     static const std::vector<int> kinds = {OP_REF_SURP, OP_REF_SURP, OP_REF_ANISO, OP_UPDATE, OP_LOAD, OP_RELOAD};
-    run_history(s, st, kinds, 1 + s.pick(4), true, [&](const Op &) {});
-    if (st.g.getNumNeeded() > 0) {   // finish the history with a complete surrogate
-        if (st.g.getNumLoaded() + st.g.getNumNeeded() <= 2 * so.cap || st.g.getNumLoaded() == 0) { Op ld; ld.kind = OP_LOAD; apply_op(st, ld); }
-        else { st.g.clearRefinement(); st.note("ClearRef(size)"); }
-    }
+    // size budget: a proposal that would take the grid beyond the budget is cancelled (a legal clearRefinement) before anything is loaded
+    const int budget = (st.spec.family == F_WAVE) ? so.cap : 2 * so.cap;   // wavelets pay a dense solve per load
+    run_history(s, st, kinds, 1 + s.pick(4), true, [&](const Op &) { if (st.g.getNumLoaded() > 0 && st.g.getNumNeeded() > 0 && st.g.getNumLoaded() + st.g.getNumNeeded() > budget) { st.g.clearRefinement(); st.note("ClearRef(size)"); } });
+    if (st.g.getNumNeeded() > 0) { Op ld; ld.kind = OP_LOAD; apply_op(st, ld); }   // finish the history with a complete surrogate
     const GridSpec &sp = st.spec; const int d = sp.dims, outs = sp.outs;
     const maps::Dom dom = maps::dom_of(sp);
     const bool local = sp.family == F_LOCALP || sp.family == F_WAVE;
@@ -100,16 +107,25 @@ void check_C05(Src &s, Ctx &ctx) {
         std::vector<double> supp = A.getHierarchicalSupport();
         for (int j = 0; j < d; j++) {
             if (pwc) { double m = 2.0; for (int i = 0; i < n; i++) m = std::min(m, supp[(size_t)i * (size_t)d + (size_t)j]); q[(size_t)j] = m; }   // cells [-1 + 2k/3^l, -1 + (2k+2)/3^l]
-            else { int M = 0; for (int i = 0; i < n; i++) M = std::max(M, h1d::dyadic_m(PA[(size_t)i * (size_t)d + (size_t)j])); q[(size_t)j] = std::ldexp(1.0, -(M + 1)); }   // nodes k/2^M, breaks of level-M functions at k/2^(M+1)
+            else { int M = 0; for (int i = 0; i < n; i++) M = std::max(M, h1d::dyadic_m(PA[(size_t)i * (size_t)d + (size_t)j])); q[(size_t)j] = std::ldexp(1.0, -(M + 1));   // nodes k/2^M, breaks of level-M functions at k/2^(M+1)
+                   // cubic wavelets are evaluated from a table of 1025 points by local cubic interpolation (piece-wise cubic, tiny kinks at every table node): the cell
+                   // must not contain a table node of any function: spacing 2^-9 for the coarse functions and 2^-(M+4) for the finest level (node k/2^M)
+                   if (sp.family == F_WAVE && sp.order == 3) q[(size_t)j] = std::ldexp(1.0, -std::max(9, M + 4)); }
         }
     }
     std::vector<int> interior_nodes;
     const bool lo_real = dom != maps::DHERMITE, hi_real = dom == maps::D11 || dom == maps::DFOURIER;   // is the end of the canonical box a boundary of the domain?
     for (int i = 0; i < n; i++) { bool in = true; for (int j = 0; j < d; j++) { double c = PA[(size_t)i * (size_t)d + (size_t)j]; if ((lo_real && !(c > lo[(size_t)j])) || (hi_real && !(c < hi[(size_t)j]))) in = false; } if (in) interior_nodes.push_back(i); }
 
+    const bool wave3 = sp.family == F_WAVE && sp.order == 3;
+    // finding C05-cubic-wavelet-derivative-at-table-nodes: the cubic wavelets are tabulated on 1025 points and evaluated by local cubic interpolation; at a
+    // coordinate that is exactly a node of the table (every dyadic k/512 for the coarse functions, hence every grid node) the reflected functions take
+    // the stencil of the other side (and the central scaling function is forced to derivative 0 at exactly 0): the one-sided derivatives do not sum
+    // to the derivative of an affine member (error ~1e-4..1e-3 of the values). Excluded class: cubic wavelets x dyadic coordinates.
+    const bool excl_w3 = wave3 && ctx.excl("C05-cubic-wavelet-derivative-at-table-nodes");
     auto gen_point = [&](bool want_node) {
         XPt p; p.t.resize((size_t)d); p.h.resize((size_t)d);
-        if (want_node && !interior_nodes.empty()) {
+        if (want_node && !interior_nodes.empty() && !excl_w3) {
             int i = interior_nodes[(size_t)(s.u16() % interior_nodes.size())]; p.node = true;
             for (int j = 0; j < d; j++) { double c = PA[(size_t)i * (size_t)d + (size_t)j], L = hi[(size_t)j] - lo[(size_t)j]; p.t[(size_t)j] = c;
                 double room = std::min(lo_real ? c - lo[(size_t)j] : L, hi_real ? hi[(size_t)j] - c : L);
@@ -120,8 +136,8 @@ void check_C05(Src &s, Ctx &ctx) {
             double L = hi[(size_t)j] - lo[(size_t)j];
             if (local) {
                 static const double fr[] = {0.5, 0.3, 0.7, 0.15, 0.85, 0.41};
-                long cells = std::lround(2.0 / q[(size_t)j]); long k = (long)(s.u16() % (unsigned long)cells); double f = fr[s.pick(6)];
-                p.t[(size_t)j] = -1.0 + ((double)k + f) * q[(size_t)j]; p.h[(size_t)j] = 0.2 * std::min(f, 1.0 - f) * q[(size_t)j];
+                long cells = std::lround(2.0 / q[(size_t)j]); long k = (long)(s.u16() % (unsigned long)cells); double f = fr[s.pick(6)]; if (excl_w3 && f == 0.5) f = 0.41;
+                p.t[(size_t)j] = -1.0 + ((double)k + f) * q[(size_t)j]; p.h[(size_t)j] = 0.05 * std::min(f, 1.0 - f) * q[(size_t)j];
             } else {
                 double u = ((double)s.u16() + 0.5) / 65536.0;
                 p.t[(size_t)j] = lo[(size_t)j] + L * (0.01 + 0.98 * u); p.h[(size_t)j] = std::min(5e-4 * L, 0.02 * gap[(size_t)j]);
@@ -131,15 +147,12 @@ void check_C05(Src &s, Ctx &ctx) {
     };
     auto to_x = [&](const std::vector<double> &t) { std::vector<double> x((size_t)d); for (int j = 0; j < d; j++) x[(size_t)j] = (double)maps::fwd(dom, ta[(size_t)j], tb[(size_t)j], t[(size_t)j]); return x; };
 
-    const int nx = 3 + s.pick(4);
-    std::vector<XPt> X; for (int r = 0; r < nx; r++) X.push_back(gen_point(s.chance(1, 3)));
+    std::vector<XPt> X; for (int r = 0; r < nx; r++) X.push_back(gen_point(((node_mask >> r) & 3u) == 1u));
     long n_nodes = 0; for (auto &p : X) n_nodes += p.node;
     { std::ostringstream o; o << nx << " x (" << n_nodes << " at nodes):"; for (auto &p : X) o << " (" << joind(p.t) << ")"; ctx.log(o.str()); }
 
-    const bool wave3 = sp.family == F_WAVE && sp.order == 3;
-    // tolerances (calibrated on the unchanged tree, see the evidence): cubic wavelets are tabulated on 1025 points and evaluated by local
-    // cubic interpolation, their derivative has (small) jumps at every table node
-    const double tau_agree = wave3 ? 1e-3 : 1e-5, tau_fd = wave3 ? 1e-3 : 1e-6, tau_chain = 1e-8, tau_exact = wave3 ? 1e-7 : 1e-8;
+    // tolerances (calibrated on the unchanged tree, see the evidence)
+    const double tau_agree = 1e-5, tau_fd = 1e-6, tau_chain = 1e-8, tau_exact = wave3 ? 1e-7 : 1e-8;
     long fd_done = 0, fd_skipped = 0, chain_done = 0, exact_done = 0;
 
     // ---- (b) finite differences of evaluate() and (c) chain rule, on the data of the history
@@ -153,7 +166,7 @@ void check_C05(Src &s, Ctx &ctx) {
         // (c)
         for (int k = 0; k < outs; k++) for (int j = 0; j < d; j++) { size_t e = (size_t)k * (size_t)d + (size_t)j; double gp = (double)dtdx[(size_t)j];
             double sc = (DA[e] + SA[(size_t)k] / (hi[(size_t)j] - lo[(size_t)j])) * std::fabs(gp);
-            ctx.close("C05.chain-rule", JB[e], (double)((LD)JA[e] * dtdx[(size_t)j]), sc, tau_chain, [&]() { std::ostringstream o; o << "differentiate with transform [" << decd(ta[(size_t)j]) << "," << decd(tb[(size_t)j]) << "] at x=(" << joind(x) << ") output " << k << " direction " << j << " vs canonical derivative " << decd(JA[e]) << " at t=(" << joind(p.t) << ") times dt/dx=" << decd(gp); return o.str(); }); }
+            close_booked(ctx, "C05.chain-rule", JB[e], (double)((LD)JA[e] * dtdx[(size_t)j]), sc, tau_chain, [&]() { std::ostringstream o; o << "differentiate with transform [" << decd(ta[(size_t)j]) << "," << decd(tb[(size_t)j]) << "] at x=(" << joind(x) << ") output " << k << " direction " << j << " vs canonical derivative " << decd(JA[e]) << " at t=(" << joind(p.t) << ") times dt/dx=" << decd(gp); return o.str(); }); }
         chain_done++; ctx.count("chain-rule-points");
         // (b) on the transformed or on the canonical grid
         bool onB = s.chance(2, 3); const TasmanianSparseGrid &G = onB ? B : A; const std::vector<double> &x0 = onB ? x : p.t; const std::vector<double> &J = onB ? JB : JA;
@@ -170,7 +183,7 @@ void check_C05(Src &s, Ctx &ctx) {
                 double sc = (DA[e] + SA[(size_t)k] / (hi[(size_t)j] - lo[(size_t)j])) * std::fabs(gp) + 1e-6 * SA[(size_t)k] / h;
                 if (!(std::fabs(f1[(size_t)k] - f2[(size_t)k]) <= tau_agree * sc)) { fd_skipped++; ctx.count("fd-skipped-steps-disagree"); continue; }
                 double rich = (16.0 * f2[(size_t)k] - f1[(size_t)k]) / 15.0;
-                ctx.close("C05.finite-diff", J[e], rich, sc, tau_fd, [&]() { std::ostringstream o; o << "differentiate (" << (onB ? "transformed" : "canonical") << " grid) at (" << joind(x0) << ") output " << k << " direction " << j << " vs Richardson central difference of evaluate (h=" << decd(h) << ": " << decd(f1[(size_t)k]) << ", h/2: " << decd(f2[(size_t)k]) << ")"; return o.str(); });
+                close_booked(ctx, "C05.finite-diff", J[e], rich, sc, tau_fd, [&]() { std::ostringstream o; o << fam_name(sp.family) << ": differentiate (" << (onB ? "transformed" : "canonical") << " grid) at (" << joind(x0) << ") output " << k << " direction " << j << " vs Richardson central difference of evaluate (h=" << decd(h) << ": " << decd(f1[(size_t)k]) << ", h/2: " << decd(f2[(size_t)k]) << ")"; return o.str(); });
                 fd_done++; ctx.count("fd-comparisons"); }
         }
     }
@@ -244,13 +257,14 @@ void check_C05(Src &s, Ctx &ctx) {
         if (E.getNumNeeded() > 0) E.clearRefinement();
         E.loadNeededValues(vals);   // no needed points: documented to overwrite the loaded values
         for (int r = 0; r < nx; r++) {
-            const XPt &p = X[(size_t)r]; std::vector<double> x = onB ? to_x(p.t) : p.t, J; E.differentiate(x, J);
+            const XPt &p = X[(size_t)r];
+            std::vector<double> x = onB ? to_x(p.t) : p.t, J; E.differentiate(x, J);
             std::vector<double> D, S; scales(E, x, D, S);
             for (int j = 0; j < d; j++) t[(size_t)j] = p.t[(size_t)j];
             for (int k = 0; k < outs; k++) for (int j = 0; j < d; j++) { size_t e = (size_t)k * (size_t)d + (size_t)j; LD gp = onB ? dtdx[(size_t)j] : 1.0L;
                 double expect = (double)(mem.df(t.data(), k, j) * gp);
                 double sc = std::max(D[e] + S[(size_t)k] / (hi[(size_t)j] - lo[(size_t)j]) * std::fabs((double)gp), std::fabs(expect));
-                ctx.close("C05.exact", J[e], expect, sc, tau_exact, [&]() { std::ostringstream o; o << "differentiate (" << (onB ? "transformed" : "canonical") << " grid, " << (p.node ? "x at a node" : "generic x") << ") of the member [" << mem.text << "] at t=(" << joind(p.t) << ") output " << k << " direction " << j; return o.str(); }); }
+                close_booked(ctx, "C05.exact", J[e], expect, sc, tau_exact, [&]() { std::ostringstream o; o << "differentiate (" << (onB ? "transformed" : "canonical") << " grid, " << (p.node ? "x at a node" : "generic x") << ") of the member [" << mem.text << "] at t=(" << joind(p.t) << ") output " << k << " direction " << j; return o.str(); }); }
             exact_done++; ctx.count(p.node ? "exact-points-at-nodes" : "exact-points-generic");
         }
     } else { ctx.label("exact:none(" + why_not + ")"); }
